@@ -40,46 +40,7 @@ def run(ctx) -> None:
     ctx.rule("ERR2", "no error-returning call dropped", floor=0)
     ctx.rule("ERR3", "collected errors returned", floor=40)
 
-    m = p.module("intermediate._translate")
-    verify = p.func("intermediate._translate:_verify")
-    battery = [f for name, f in m.functions.items() if name.startswith("_verify_") and "." not in name and _is_error_list(ctx, f)]
-    ctx.require_anchor(len(battery) >= 10, "the IR verification battery (_verify_* -> List[Error]) exists")
-    art = artefacts(ctx.ty, verify)
-    reach = art.cfg.reachable()
-    ret_names = {n.expr.id for n in art.cfg.nodes if n.kind == "return" and isinstance(n.expr, ast.Name)}
-    for f in battery:
-        sites = [(node, c) for node in art.cfg.nodes if node.id in reach for c in calls_in(node) if dotted_of(c.func) == f.name]
-        what = f"{f.name} called from _verify"
-        if not sites:
-            ctx.fail("REG", verify, verify.node, f"`{f.name}` is not called from any reachable statement of _verify: the rule it enforces is no longer checked", construct=what)
-            continue
-        node, call = sites[0]
-        # constant-false guard?
-        dead_guard = False
-        for n2 in ast.walk(verify.node):
-            if isinstance(n2, ast.If) and isinstance(n2.test, ast.Constant) and not n2.test.value and any(x is call for x in ast.walk(ast.Module(body=n2.body, type_ignores=[]))):
-                dead_guard = True
-        # result flows into the accumulator that is returned
-        flows = False
-        st = node.stmt
-        if isinstance(st, ast.Expr) and isinstance(st.value, ast.Call) and isinstance(st.value.func, ast.Attribute) and st.value.func.attr == "extend" and dotted_of(st.value.func.value) in ret_names:
-            flows = any(x is call for x in ast.walk(st.value))
-        elif isinstance(st, ast.Assign) and isinstance(st.targets[0], ast.Name):
-            tgt = st.targets[0].id
-            if tgt in ret_names:
-                flows = True
-            else:
-                for n3 in art.cfg.nodes:
-                    s3 = n3.stmt
-                    if n3.id in reach and isinstance(s3, ast.Expr) and isinstance(s3.value, ast.Call) and isinstance(s3.value.func, ast.Attribute) and s3.value.func.attr == "extend" \
-                            and dotted_of(s3.value.func.value) in ret_names and any(isinstance(a, ast.Name) and a.id == tgt for a in s3.value.args):
-                        flows = True
-        if dead_guard:
-            ctx.fail("REG", verify, call, f"`{f.name}` is only called under a constant-false condition", construct=what)
-        elif not flows:
-            ctx.fail("REG", verify, call, f"the errors returned by `{f.name}` do not flow into the accumulator returned by _verify", construct=what)
-        else:
-            ctx.ok("REG", verify, call, what=what + ", result extended into the returned errors")
+    battery = check_reg(ctx)
 
     anchor.check_anchor_agreement(ctx, "ANCHOR-ATOMS")
     translate = p.func("intermediate._translate:translate")
@@ -127,3 +88,58 @@ def run(ctx) -> None:
         if _m.name in ("aas_core_codegen.intermediate._translate", "aas_core_codegen.intermediate._hierarchy", "aas_core_codegen.intermediate.construction", "aas_core_codegen.parse._translate"):
             for _f in _m.functions.values():
                 _skips.check_skips(ctx, _f, "SKIPS", _base)
+
+def check_reg(ctx):
+    """REG: every _verify_* of the IR stage is called from _verify, reachable, independent of unrelated errors, and its result
+    flows into the returned accumulator.  Returns the battery."""
+    p = ctx.p
+    m = p.module("intermediate._translate")
+    verify = p.func("intermediate._translate:_verify")
+    battery = [f for name, f in m.functions.items() if name.startswith("_verify_") and "." not in name and _is_error_list(ctx, f)]
+    ctx.require_anchor(len(battery) >= 10, "the IR verification battery (_verify_* -> List[Error]) exists")
+    art = artefacts(ctx.ty, verify)
+    reach = art.cfg.reachable()
+    ret_names = {n.expr.id for n in art.cfg.nodes if n.kind == "return" and isinstance(n.expr, ast.Name)}
+    for f in battery:
+        sites = [(node, c) for node in art.cfg.nodes if node.id in reach for c in calls_in(node) if dotted_of(c.func) == f.name]
+        what = f"{f.name} called from _verify"
+        if not sites:
+            ctx.fail("REG", verify, verify.node, f"`{f.name}` is not called from any reachable statement of _verify: the rule it enforces is no longer checked", construct=what)
+            continue
+        node, call = sites[0]
+        # constant-false guard?
+        dead_guard = False
+        for n2 in ast.walk(verify.node):
+            if isinstance(n2, ast.If) and isinstance(n2.test, ast.Constant) and not n2.test.value and any(x is call for x in ast.walk(ast.Module(body=n2.body, type_ignores=[]))):
+                dead_guard = True
+        # result flows into the accumulator that is returned
+        flows = False
+        st = node.stmt
+        if isinstance(st, ast.Expr) and isinstance(st.value, ast.Call) and isinstance(st.value.func, ast.Attribute) and st.value.func.attr == "extend" and dotted_of(st.value.func.value) in ret_names:
+            flows = any(x is call for x in ast.walk(st.value))
+        elif isinstance(st, ast.Assign) and isinstance(st.targets[0], ast.Name):
+            tgt = st.targets[0].id
+            if tgt in ret_names:
+                flows = True
+            else:
+                for n3 in art.cfg.nodes:
+                    s3 = n3.stmt
+                    if n3.id in reach and isinstance(s3, ast.Expr) and isinstance(s3.value, ast.Call) and isinstance(s3.value.func, ast.Attribute) and s3.value.func.attr == "extend" \
+                            and dotted_of(s3.value.func.value) in ret_names and any(isinstance(a, ast.Name) and a.id == tgt for a in s3.value.args):
+                        flows = True
+        # a check that only runs while the WHOLE accumulator is still empty is suppressed by any unrelated earlier error:
+        # independent errors of the meta-model are then not all reported (a check may depend on its own prerequisite only)
+        from ..rules import schema as _S
+        _par = _S.parents_of(verify)
+        whole = [ast.unparse(t) for t, pol in _S.guards_of(call, _par)
+                 if any(ast.unparse(t) in (f"len({r}) == 0", f"not {r}", f"len({r}) < 1") for r in ret_names) and pol]
+        if whole:
+            ctx.fail("REG", verify, call, f"`{f.name}` runs only under `{whole[0]}`, i.e. while no other check has reported anything: an independent violation of its rule is dropped from the report whenever another class has any earlier error", construct=what + " independent of unrelated errors")
+            continue
+        if dead_guard:
+            ctx.fail("REG", verify, call, f"`{f.name}` is only called under a constant-false condition", construct=what)
+        elif not flows:
+            ctx.fail("REG", verify, call, f"the errors returned by `{f.name}` do not flow into the accumulator returned by _verify", construct=what)
+        else:
+            ctx.ok("REG", verify, call, what=what + ", result extended into the returned errors")
+    return battery
